@@ -89,6 +89,20 @@ def run(seed: int, perm: int, n: int) -> list[str]:
         if len(names) <= 1:
             res.append(fmt(call(lambda: sm.Derivative(mk()).at(1.25))))
             res.append(fmt(call(lambda: mk().at(0.75))))
+        # printed forms echo the order in which the coordinates were written (that is what "echo" means), so they are taken
+        # from a point written in one fixed order: only the hash seed and the creation order of variables vary
+        pfix = Point(**dict((k_, wire.raw_num(v)) for k_, v in c["p"]))
+        res.append(fmt(call(lambda: (repr(pfix), str(pfix), repr(sm.LocatedDifferential(mk(), pfix, _private={"numeric_partials": {}}))))))
+    # printed forms of points: names keyword syntax can and cannot spell, mixed, several of each (written in one fixed order)
+    rng = random.Random(seed + 17)
+    stock = ["x", "y", "alpha", "b2", "1x", "2y", "3z", "class", "lambda", "None", "\u00b5", "\uff58", "\u212b", "zeta", "_u", "k9"]
+    for _ in range(40):
+        ns = rng.sample(stock, rng.randint(2, 6))
+        items = [(nm, rng.choice([1, 2.5, -3, 0.0, 7])) for nm in ns]
+        q = Point(**dict(items))
+        res.append(fmt(call(lambda: (repr(q), str(q)))))
+        e = X.Add(*[X.Variable(nm) for nm in sorted(ns)])
+        res.append(fmt(call(lambda: (repr(sm.LocatedDifferential(e, q)), repr(sm.Differential(e).at(q))))))
     return res
 
 
